@@ -1,3 +1,4 @@
+import ErgoVerif.Generated.Unreg
 import ErgoVerif.Lemmas.SupStep
 import ErgoVerif.Lemmas.SupScan
 import ErgoVerif.Lemmas.SupOrder
@@ -544,6 +545,11 @@ example : ∃ c, run ofoStepSafe (ofoBoot (sp3 false false .temporary true true)
       [.die 2 .normal, .deliver 2 1000 [], .die 3 (.other 1), .deliver 3 1001 [], .startChild 2 0 [],
        .die 1 (.other 1), .deliver 1 1002 []] = some c ∧ c.status = .terminated (.other 1) ∧ c.alive = [] :=
   ⟨_, rfl, by decide⟩
+
+/-- the restart of a registered child presupposes that its name is free when the supervisor handles the exit signal:
+the node releases the name before it sends the exit signals (regenerated from node.unregisterProcess; the repaired D28 —
+the restart is exercised on a real node by the K4 part of the harness) -/
+theorem C08_code_shape_name_release : ErgoVerif.Gen.Unreg.nameReleasedBeforeExitSignals = true := by decide
 
 /-! ## non-vacuity -/
 
